@@ -22,11 +22,11 @@ const sigEmptyFieldKey = "empty-field-key-after-tab-or-nul"
 const sigTokenMismatch = "field-tokenization-mismatch-escaped-backslash"
 
 type j12 struct {
-	Body    []byte `json:"body"`
-	BodyQ   string `json:"body_q"`
-	Prec    string `json:"precision"`
-	Dflt    int64  `json:"default_time"`
-	Stream  string `json:"stream"`
+	Body    []byte   `json:"body"`
+	BodyQ   string   `json:"body_q"`
+	Prec    string   `json:"precision"`
+	Dflt    int64    `json:"default_time"`
+	Stream  string   `json:"stream"`
 	Points  []jview  `json:"impl_points"`
 	Rej     [][]byte `json:"impl_rejected"`
 	RejQ    []string `json:"impl_rejected_q"`
@@ -414,8 +414,8 @@ func corpus12() []j12 {
 	cs := []j12{
 		mk("cpu,host=a,region=b value=1i,f=2.5,s=\"x y\",b=t 1700000000000000000", "ns"),
 		mk("m f=1\nbad\n# comment\n\n  \nm,b=1,a=2 f=1 5\nm,a=1,a=2 f=1\nm f=1 x", "ns"),
-		mk("m \t=1", "ns"),           // known finding: empty field key
-		mk("m \x00=1,b=2 7", "ns"),   // known finding shape, second field named
+		mk("m \t=1", "ns"),             // known finding: empty field key
+		mk("m \x00=1,b=2 7", "ns"),     // known finding shape, second field named
 		mk("m a\\\\=\"x=t,b=\"", "ns"), // known finding: accepted, FieldIterator.StringValue()/Fields() panic
 		mk("m a\\\\=\"x=-i,b=1\" 5", "ns"),
 		mk("m f=\"a\nb\" 1\nm2 f=1", "ns"),
